@@ -174,6 +174,18 @@ class Skeleton:
         self.eid = {n: i + 1 for i, n in enumerate(self.evs)}
         self.tid = {n: i + 1 for i, n in enumerate(self.tys)}
         self.cmd_file, self.ev_file, self.defs = {}, {}, {}
+        # member names (struct fields, enum variants, command parameters): one numbering
+        mem = set()
+        for rel in self.paths:
+            for it in files[rel]:
+                if it["kind"] == "fn":
+                    mem.update(p["name"] for p in it.get("params", []))
+                elif it["kind"] == "struct":
+                    mem.update(f["name"] for f in it.get("fields", []))
+                elif it["kind"] == "enum":
+                    mem.update(v["name"] for v in it.get("variants", []))
+        self.members = sorted(mem)
+        self.mid = {n: i + 1 for i, n in enumerate(self.members)}
         proj = []
         for rel in self.paths:
             items = []
@@ -184,20 +196,20 @@ class Skeleton:
                     for e, _, _ in fn_events(it):
                         self.ev_file.setdefault(e, rel)
                     if is_command(it):
-                        roots, hp, hc = [], False, False
+                        roots, ps, cs = [], [], []
                         for p in it.get("params", []):
                             if is_channel(p["ty"]):
-                                hc = True
+                                cs.append(self.mid[p["name"]])
                                 roots += custom_names(p["ty"]["args"][0])
                             elif is_special_param(p["ty"]):
                                 continue
                             else:
-                                hp = True
+                                ps.append(self.mid[p["name"]])
                                 roots += custom_names(p["ty"])
                         if it.get("ret") is not None:
                             roots += custom_names(it["ret"])
                         self.cmd_file[it["name"]] = rel
-                        items.append(["cmd", self.cid[it["name"]], [self.tid[r] for r in roots], hp, hc, evl])
+                        items.append(["cmd", self.cid[it["name"]], [self.tid[r] for r in roots], ps, cs, evl])
                     elif evl:
                         items.append(["fn", evl])
                     else:
@@ -207,7 +219,9 @@ class Skeleton:
                     body = len(self.bodies)
                     self.bodies.append((rel, it))
                     self.defs.setdefault(it["name"], []).append((rel, body))
-                    items.append(["type", self.tid[it["name"]], deps, body, k == "enum"])
+                    fs = [self.mid[f["name"]] for f in it.get("fields", [])] if k == "struct" else \
+                         [self.mid[v["name"]] for v in it.get("variants", [])]
+                    items.append(["type", self.tid[it["name"]], deps, body, k == "enum", fs])
                 else:
                     items.append(["noise"])
             proj.append([self.pid[rel], items])
